@@ -19,6 +19,17 @@ RULE_KINDS = {
     'arity_body': (['q(x) <-- e(x);'], ['q(x) <-- e(x, _);'], 'wrong arity for relation `e`'),
     'arity_agg': (['q(x) <-- e(x, _), agg _c = count() in z(x, x);'], ['q(x) <-- e(x, _), agg _c = count() in z(x);'], 'wrong arity for relation `z`'),
     'arity_neg': (['q(x) <-- e(x, _), !z(x, x);'], ['q(x) <-- e(x, _), !z(x);'], 'wrong arity for relation `z`'),
+    # the wrong-arity / undeclared clause is not the first mention of that relation in its rule
+    'arity_body_2nd': (['q(x) <-- e(x, y), e(y);'], ['q(x) <-- e(x, y), e(y, _);'], 'wrong arity for relation `e`'),
+    'arity_body_1st_of_2': (['q(x) <-- e(x), e(x, _);'], ['q(x) <-- e(x, _), e(x, _);'], 'wrong arity for relation `e`'),
+    'arity_body_3rd': (['q(x) <-- e(x, y), e(y, w), e(w);'], ['q(x) <-- e(x, y), e(y, w), e(w, _);'], 'wrong arity for relation `e`'),
+    'arity_neg_2nd': (['q(x) <-- e(x, y), !e(y);'], ['q(x) <-- e(x, y), !e(y, _);'], 'wrong arity for relation `e`'),
+    'arity_agg_2nd': (['q(x) <-- z(x), agg _c = count() in z(x, x);'], ['q(x) <-- z(x), agg _c = count() in z(x);'], 'wrong arity for relation `z`'),
+    'arity_head_after_body': (['p(x) <-- p(x, _), e(x, _);'], ['p(x, x) <-- p(x, _), e(x, _);'], 'wrong arity for relation `p`'),
+    'arity_head_2nd': (['q(x), q(x, x) <-- e(x, _);'], ['q(x), q(x + 1) <-- e(x, _);'], 'wrong arity for relation `q`'),
+    'arity_body_after_head': (['p(x, y) <-- e(x, y), p(y);'], ['p(x, y) <-- e(x, y), p(y, _);'], 'wrong arity for relation `p`'),
+    'arity_zero_args': (['q(x) <-- e(x, _), z();'], ['q(x) <-- e(x, _), z(_);'], 'wrong arity for relation `z`'),
+    'undeclared_2nd_rule': (['q(x) <-- z(x);', 'q(x) <-- nope(x);'], ['q(x) <-- z(x);', 'q(x) <-- z(x);'], 'relation `nope` is not defined'),
     'strat_self_neg': (['a1(x) <-- e(x, _), !a1(x);'], ['a1(x) <-- e(x, _), !z(x);'], 'cannot be stratified'),
     'strat_self_agg': (['a1(x) <-- e(x, _), agg _c = count() in a1(x);'], ['a1(x) <-- e(x, _), agg _c = count() in z(x);'], 'cannot be stratified'),
     'rebind_let': (['q(x) <-- e(x, y), let y = 3;'], ['q(x) <-- e(x, y), let _w = 3;'], 'shadows another variable'),
